@@ -7,7 +7,7 @@ import json, itertools, sys
 IDS = ["", "C13-unuse-rebuild", "C13-use-copies-all", "C13-set-pushes-to-users", "C13-defun-not-propagated",
        "C13-fmakunbound-stale-in-users", "C13-unbind-inherited-local", "C13-unexport-inherited-flips-home",
        "C13-unbind-loses-export", "C13-export-placeholder", "C13-unbound-marker-value", "C13-single-colon-lenient",
-       "C13-conflict-loser-lost"]
+       "C13-conflict-loser-lost", "C13-qualified-write"]
 
 # universes: 0 = 2 packages, 1 variable; 1 = 2 packages, 1 function; 2 = 2 packages, variable + function;
 # 3, 4, 5 = the same with 3 packages.
@@ -55,7 +55,9 @@ def step_ops(universe, pre=True, two_arg=True):
     np_, per = shape(universe)
     f = n // np_
     nn = 2 if universe % 3 == 2 else 1
-    extra = (np_ - 1) * (2 * nn + 2 * (np_ - 1))
+    nvar = 0 if universe % 3 == 1 else 1
+    # two-argument export/unexport and use/unuse forms, then the qualified writes (defvar/defun p::n, setq p::v)
+    extra = (np_ - 1) * (2 * nn + 2 * (np_ - 1)) + (np_ - 1) * (nn + nvar)
     out = [0] if pre else []
     out += list(range(1, f + 1))
     if two_arg:
@@ -94,7 +96,9 @@ WITNESS = [
     [11, 0, 1, 4, 13, 0, 0],   # A: defvar v, export; B: use A -> B:v resolves
 ]
 # [region, universe, order, state, op]: B and C define + export v, A uses both, C: unexport v -> v unbound in A
-WITNESS_STEP = [[12, 3, 0, 252, 23]]
+WITNESS_STEP = [[12, 3, 0, 252, 23],
+                # empty state, A: (setq B::v x) -> nothing happens; B defines v, A: (defvar B::v x) -> overwritten
+                [13, 0, 0, 0, 20], [13, 0, 0, 4, 19]]
 
 COMMON_NOTE = (
     "Real Lisp forms (defpackage with :use cl cl-user [and :export], in-package, defvar, setq, makunbound, defun, "
@@ -114,7 +118,7 @@ COMMON_NOTE = (
     "asserted by C13.findings/C13.findings-step behind vrt.Carve; switch zzC13Known[i] off in the harness when a defect is "
     "repaired. Test packages use cl-user as well as cl because the condition classes live in cl-user and signalling from a "
     "package that cannot see them is a nil dereference in slip.FindClass (outside this property, reported). Not covered: "
-    "qualified writes ((setq p::v ..), (defvar p::v ..), (defun p::f ..)), import/shadow/intern/unintern/delete-package, "
+    "qualified writes in histories (they are operations of the step obligations only), p:name writes, import/shadow/intern/unintern/delete-package, "
     "classes, the Go-side Import/Define API, the reader-compile path that plants placeholder functions, same name used "
     "as variable and function, packages locked or with nicknames.")
 
@@ -145,6 +149,7 @@ def main():
     quick_s = []
     for u in (0, 1):
         quick_s += steps(u, [0], ops=step_ops(u, pre=False, two_arg=False))
+        quick_s += steps(u, [0], ops=step_ops(u)[-(2 if u == 0 else 1):])     # the qualified writes
     seen_s = set(map(tuple, quick_s))
     thorough_s = list(quick_s)
     for u in (0, 1):
@@ -179,13 +184,13 @@ def main():
                   "a canonical order (0..5: the phases define/export/use in the six permutations; 6, 7: exports given to "
                   "defpackage (:export), then define/use in both orders); op 0 compares the pre-state itself with the model "
                   "(so only reachable, model-coherent states are used), op > 0 performs that operation (evaluated in package A, "
-                  "including the two-argument forms (export 'n B), (unexport 'n B), (use-package B A), (unuse-package B A)) and "
-                  "compares. QUICK: order 0, all 64 states, the one-argument operations. THOROUGH: "
+                  "including the two-argument forms (export 'n B), (unexport 'n B), (use-package B A), (unuse-package B A) "
+                  "and the qualified writes (defvar B::v x) / (defun B::f () x), (setq B::v x)) and compares. QUICK: order 0, all 64 states, the one-argument operations and the qualified writes. THOROUGH: "
                   "all 8 orders x 64 states x all operations, variable and function universe. " + COMMON_NOTE),
         dict(common, id="C13.step3", entry="VerifC13Step", reach=["compared"],
              cases={"quick": quick_s3, "thorough": thorough_s3},
              note="(i) with 3 packages (12 state bits): THOROUGH: construction order 0, the 1024 states in which package C defines "
-                  "and exports the name, all 22 operations evaluated in A (one- and two-argument forms about B and C), variable "
+                  "and exports the name, all 26 / 24 operations evaluated in A (one- and two-argument forms and qualified writes about B and C), variable "
                   "and function universe (the other 3072 states per universe were explored natively with concrete values only, "
                   "see the report). QUICK: three name-conflict states. " + COMMON_NOTE),
     ]
